@@ -9,10 +9,9 @@
    malloc'd name buffer E->field (a new one on every rename).  A pointer is
    dangling iff no live entry carries that identity.
 
-   [cfg] switches the one repair that is proposed but not yet applied
-   (proposed_fixes/C15-13); [pinned] is the code as it stands in /repo (which
-   contains the repairs C15-1 .. C15-12, the depth bound of _GD_ResolveAlias
-   and the re-resolution of unresolved aliases in _GD_UpdateAliases).
+   [pinned] is the code as it stands in the frozen /repo (6bdc56b), which contains
+   the repairs C15-1 .. C15-14, the depth bound of _GD_ResolveAlias and the
+   re-resolution of unresolved aliases in _GD_UpdateAliases.
    Anchors: src/common.c (find/insert), add.c (_GD_Add, _GD_AddAlias),
    parse.c (_GD_ParseFieldSpec insert path, _GD_ResolveAlias,
    _GD_UpdateAliases), del.c (_GD_Delete), name.c (_GD_Rename,
@@ -25,13 +24,11 @@ Import ListNotations.
 Open Scope N_scope.
 
 (* ------------------------------------------------------------------ cfg *)
-Record cfg := mkCfg {
-  fx_delalias : bool;  (* proposed C15-13: _GD_Delete re-resolves all aliases, as _GD_PerformRename does *)
-  fx_dotparent : bool  (* proposed C15-14: gd_madd*() builds the subfield name from the parent entry's name,
-                          not from the caller's string (which may carry the leading '.' that lookup drops) *)
-}.
-Definition pinned := mkCfg false false.   (* the code as it stands in /repo *)
-Definition fixed  := mkCfg true true.     (* with the proposed repairs *)
+(* No repair is pending any more: every proposed one up to C15-14 is in the frozen tree.  The type is
+   kept so that statements read "for every configuration"; it has a single inhabitant. *)
+Record cfg := mkCfg { }.
+Definition pinned := mkCfg.   (* the code as it stands in /repo (frozen at 6bdc56b) *)
+Definition fixed  := mkCfg.
 
 (* ---------------------------------------------------------------- types *)
 Definition T_RAW := 0.  Definition T_LINCOM := 1.  Definition T_LINTERP := 2.
@@ -87,7 +84,7 @@ Definition INDEX_name : name := [73; 78; 68; 69; 88].
 
 Definition init_state : state :=
   mkS [mkE INDEX_name 0 1 T_INDEX 0 false false None [] [] [] None false 0%Z []]
-      2 None [None; None] [] ([], []).
+      2 None [None; None] [] ([0], [0]).
 
 (* ------------------------------------------------------------- lookups *)
 Definition keys (l : list entry) := map e_name l.
@@ -413,8 +410,7 @@ Definition undot (k : name) : name :=
    computed for the name without the dot, which breaks the order of D->entry: that case is left
    unmodelled ([dotted_parent]) unless the repair is in. *)
 Definition parent_part (c : cfg) (P : entry) (praw : name) : name := e_name P.
-Definition dotted_parent (c : cfg) (praw : name) : bool :=
-  negb (fx_dotparent c) && negb (length praw =? length (undot praw))%nat.
+Definition dotted_parent (c : cfg) (praw : name) : bool := false.
 
 (* the tail of _GD_Add once the parent and the full name are known *)
 Definition add_go (s : state) (ty : N) (hid : bool) (ins : list name) (scs : list (option name)) (v : Z)
@@ -706,7 +702,7 @@ Definition op_del (c : cfg) (s : state) (nm : name) (flags : N) : state * res :=
       let s2 := set_fref (set_ref (set_ents s l1) rf') fr' in
       (* clear clients and derived fields *)
       let l3 := map (clear_one f_deref dels) (s_ents s2) in
-      let fin (l : list entry) := if fx_delalias c then update_aliases true l else l in
+      let fin (l : list entry) := update_aliases true l in   (* _GD_UpdateAliases(D, 1) at the end of _GD_Delete *)
       if e_meta E then
         match by_oid l3 (e_par E) with
         | None => (s, RCrash K_NULLPARENT)
@@ -838,20 +834,38 @@ Definition reaffix (oldp olds px sx : name) (n : name) : name :=
   let base := suffix_strip olds (skipn (length oldp) top) in
   px ++ base ++ sx ++ sub.
 
+(* F->px / F->sx of fragment 1; [NULLAFF] stands for the NULL pointer of a fragment that never had one *)
+Definition NULLAFF : name := [0].
+Definition is_nullaff (a : name) : bool := match a with [0] => true | _ => false end.
+Definition eff_aff (a : name) : name := if is_nullaff a then [] else a.
+
+(* _GD_UpdateAffixes (prefix and suffix only): parts that do not change are forgotten; if nothing
+   changes the call does nothing at all; otherwise every field of the fragment gets its new code, which
+   must not name an existing entry; the table is re-sorted and every cached list dropped *)
 Definition op_affix (s : state) (frag : N) (px sx : name) : state * res :=
   if (frag =? 0) || (NFRAG <=? frag) then (s, RInt E_BAD_INDEX)
-  else if negb (clean px) || negb (clean sx) || has_dot px || has_dot sx then (s, RInt E_BAD_CODE)
   else
-    let '(op_, os_) := s_aff s in
+    let '(op_raw, os_raw) := s_aff s in
+    let op_ := eff_aff op_raw in
+    let os_ := eff_aff os_raw in
+    let px_chg := is_nullaff op_raw || negb (name_eqb px op_) in
+    let sx_chg := is_nullaff os_raw || negb (name_eqb sx os_) in
+    if negb px_chg && negb sx_chg then (s, RInt E_OK)
+    else if (px_chg && (negb (clean px) || has_dot px)) || (sx_chg && (negb (clean sx) || has_dot sx))
+    then (s, RInt E_BAD_CODE)
+    else
+    let px' := if px_chg then px else op_ in
+    let sx' := if sx_chg then sx else os_ in
     let nx := s_next s in
     (* _GD_UpdateCode: the new code of every affected entry must not name an existing entry *)
     if existsb (fun e => (e_frag e =? frag) &&
-                         match find_nd (s_ents s) (reaffix op_ os_ px sx (e_name e)) with Some _ => true | None => false end)
+                         match find_nd (s_ents s) (reaffix op_ os_ px' sx' (e_name e)) with Some _ => true | None => false end)
                (s_ents s)
     then (s, RInt E_DUPLICATE) else
     let l1 := map (fun e => if e_frag e =? frag
-                            then set_name e (reaffix op_ os_ px sx (e_name e)) (nx + e_id e) else e) (s_ents s) in
-    let s1 := mkS (resort e_name l1) (nx + nx) (s_ref s) (s_fref s) (s_fl s) (px, sx) in
+                            then set_name e (reaffix op_ os_ px' sx' (e_name e)) (nx + e_id e) else e) (s_ents s) in
+    let s1 := mkS (resort e_name l1) (nx + nx) (s_ref s) (s_fref s) (s_fl s)
+                  ((if px_chg then px else op_raw), (if sx_chg then sx else os_raw)) in
     (inval_all s1, RInt E_OK).
 
 (* ------------------------------------------------------------ entry list *)
@@ -892,7 +906,7 @@ Definition op_list (s : state) (parent : option name) (sel flags : N) : state * 
   end.
 
 Definition affixed (s : state) : bool :=
-  match s_aff s with ([], []) => false | _ => true end.
+  match eff_aff (fst (s_aff s)), eff_aff (snd (s_aff s)) with [], [] => false | _, _ => true end.
 
 Definition praw_of (parent : option name) : name := match parent with Some p => p | None => [] end.
 Definition undot_opt (parent : option name) : option name := match parent with Some p => Some (undot p) | None => None end.
